@@ -30,7 +30,16 @@ traces (among them a duplicated event of a subscriber that comes and goes) must 
 rejected by TLC.
 """
 import json, os, random, re
+from concurrent.futures import ThreadPoolExecutor
 from vlib import Infra, log
+
+
+def par(jobs, n=4):
+    """run independent TLC jobs (callables) side by side; results in order (JVM start dominates
+    the small runs)"""
+    with ThreadPoolExecutor(max_workers=n) as ex:
+        futs = [ex.submit(j) for j in jobs]
+        return [f.result() for f in futs]
 
 
 def export(r, path, tags, mode="w"):
@@ -201,35 +210,49 @@ def run(ctx):
     rnd = random.Random(ctx.seed)
 
     # ---- 1. design ---------------------------------------------------------
-    ctx.design_check("Property", "MCProperty_thorough.cfg" if thorough else "MCProperty.cfg", workers=4, timeout=1500)
-    ctx.design_check("PropertySteps", "MCPropertySteps_thorough.cfg" if thorough else "MCPropertySteps.cfg",
-                     workers=4, timeout=1500, coverage=thorough)
-    churn = ctx.design_check("PropertySteps", "MCPropertySteps_churn_thorough.cfg" if thorough else "MCPropertySteps_churn.cfg",
-                             workers=4, timeout=2400, coverage=thorough)
-    ctx.extra["c14_churn_model_states"] = churn.distinct
-    # vacuity guards: the accounting invariants must be sensitive to the aliasing of the live slice
-    for cfg, inv in (("MCPropertySteps_live.cfg", "NeverTwice"), ("MCPropertySteps_live2.cfg", "StableExactlyOnce")):
-        lv = ctx.tlc("PropertySteps", cfg, workers=2, count=False, expect_ok=False)
-        if inv not in lv.violated:
-            raise Infra("Dev_IterateLiveSlice does not violate %s in the model (%s): %s" % (inv, cfg, lv.violated))
-    se = ctx.tlc("PropertySteps", "MCPropertySteps_senderr.cfg", workers=2, count=False, expect_ok=False)
-    if "AcceptedWriteReturnsOK" not in se.violated:
-        raise Infra("Dev_SendErrorFailsWrite does not violate AcceptedWriteReturnsOK in the model: %s" % se.violated)
-    dev = ctx.tlc("Property", "MCProperty_dev.cfg", workers=2, count=False, expect_ok=False)
-    if not (set(dev.violated) & {"StoredTyped", "TypedReads", "AcceptedWritesValidated"}):
-        raise Infra("Dev_ValidateByBytesOnly does not violate the typed-register invariants: %s" % dev.violated)
-    order = ctx.tlc("PropertySteps", "MCPropertySteps_order.cfg", workers=2, count=False, expect_ok=False)
-    if "EventsInWriteOrder" in order.violated:
+    designs = [("Property", "MCProperty_thorough.cfg" if thorough else "MCProperty.cfg"),
+               ("PropertySteps", "MCPropertySteps_thorough.cfg" if thorough else "MCPropertySteps.cfg"),
+               ("PropertySteps", "MCPropertySteps_churn_thorough.cfg" if thorough else "MCPropertySteps_churn.cfg")]
+    # vacuity guards: the accounting invariants must be sensitive to the aliasing of the live slice;
+    # the other named deviations must break their invariants too
+    guards = [("PropertySteps", "MCPropertySteps_live.cfg", {"NeverTwice"}),
+              ("PropertySteps", "MCPropertySteps_live2.cfg", {"StableExactlyOnce"}),
+              ("PropertySteps", "MCPropertySteps_senderr.cfg", {"AcceptedWriteReturnsOK"}),
+              ("Property", "MCProperty_dev.cfg", {"StoredTyped", "TypedReads", "AcceptedWritesValidated"}),
+              ("PropertySteps", "MCPropertySteps_order.cfg", set())]
+    outs = par([(lambda m=m, c=c: ctx.design_check(m, c, workers=4, timeout=2400, coverage=thorough and m != "Property"))
+                for (m, c) in designs] +
+               [(lambda m=m, c=c: ctx.tlc(m, c, workers=2, count=False, expect_ok=False)) for (m, c, _) in guards],
+               2 if thorough else 8)
+    ctx.extra["c14_churn_model_states"] = outs[2].distinct
+    outs = outs[3:]
+    for (m, c, want), r in zip(guards, outs):
+        if want and not (set(r.violated) & want):
+            raise Infra("the deviation of %s does not violate %s in the model: %s" % (c, sorted(want), r.violated))
+    if "EventsInWriteOrder" in outs[4].violated:
         ctx.model_only.append("PropertySteps: events may reach a subscriber in another order than the writes took "
                               "effect (service-side update saves, remote set saves and notifies, update notifies); "
                               "not demanded by C14, hence no verdict")
+    ctx.model_only.append("PropertySteps: with Dev_IterateLiveSlice (the emitter iterates the live subscriber slice "
+                          "instead of a copy) a subscriber leaving during an emission makes the last subscriber "
+                          "receive the event twice, or a stable one miss it - NeverTwice / StableExactlyOnce are "
+                          "violated in the model (vacuity guard; the pinned code copies)")
 
     # ---- 2. sequential behaviours -------------------------------------------
     beh = ctx.path("c14-beh.ndjson")
-    g1 = ctx.tlc("GenProperty", "GenProperty_cov.cfg", workers=1, count=False)
+    gens = par([lambda: ctx.tlc("GenProperty", "GenProperty_cov.cfg", workers=1, count=False),
+                lambda: ctx.tlc("GenProperty", "GenProperty_seq5.cfg" if thorough else "GenProperty_seq.cfg", workers=1,
+                                count=False, timeout=2400),
+                lambda: ctx.tlc("GenPropertySteps", "GenPropertySteps.cfg", workers=1, count=False, timeout=1200),
+                lambda: ctx.tlc("GenPropertySteps", "GenPropertySteps_churn_u.cfg", workers=1, count=False, timeout=1200),
+                lambda: ctx.tlc("GenPropertySteps", "GenPropertySteps_churn_m.cfg", workers=1, count=False, timeout=1200),
+                lambda: ctx.tlc("GenPropertySteps", "GenPropertySteps_churn_sim.cfg", workers=1, count=False,
+                                simulate="num=%d" % (6000 if thorough else 400), depth=80, seed=ctx.seed, timeout=2400)],
+               3 if thorough else 6)
+    g1, g2, gs = gens[0], gens[1], gens[2]
+    gcs = gens[3:]
+    del gens
     n = export(g1, beh, ("W", "T"))
-    g2 = ctx.tlc("GenProperty", "GenProperty_seq5.cfg" if thorough else "GenProperty_seq.cfg", workers=1,
-                 count=False, timeout=2400)
     n += export(g2, beh, ("T",), "a")
     del g2
     if thorough:
@@ -274,11 +297,10 @@ def run(ctx):
             f.write(json.dumps(d) + "\n")
     rb = ctx.harness_json("signal", ["c14-replay", bad], timeout=600)
     nb = sum((rb.get("fail_count") or {}).values())
-    if nb != len(pick):
+    if nb != len(pick) and not ctx.violations:
         raise Infra("replay self-test: %d corrupted expectations, %d reported" % (len(pick), nb))
 
     # ---- 3. gated schedules ---------------------------------------------------
-    gs = ctx.tlc("GenPropertySteps", "GenPropertySteps.cfg", workers=1, count=False, timeout=1200)
     sched = gs.printed("S")
     del gs
     if len(sched) < 3000:
@@ -307,18 +329,12 @@ def run(ctx):
     ctx.extra["c14_gated_fail_count"] = rg.get("fail_count")
 
     # ---- 3b. schedules with a changing set of subscribers -----------------------------
-    csched = []
-    for cfg in ("GenPropertySteps_churn_u.cfg", "GenPropertySteps_churn_m.cfg"):
-        gc = ctx.tlc("GenPropertySteps", cfg, workers=1, count=False, timeout=1200)
-        csched += gc.printed("S")
-        del gc
+    csched = gcs[0].printed("S") + gcs[1].printed("S")
     nex = len(csched)
     if nex < 2000:
         raise Infra("churn schedule export too small: %d" % nex)
-    gc = ctx.tlc("GenPropertySteps", "GenPropertySteps_churn_sim.cfg", workers=1, count=False,
-                 simulate="num=%d" % (6000 if thorough else 400), depth=80, seed=ctx.seed, timeout=2400)
-    csched += gc.printed("S")
-    del gc
+    csched += gcs[2].printed("S")
+    del gcs
     if len(csched) - nex < 300:
         raise Infra("simulated churn schedules: %d" % (len(csched) - nex))
     cp = ctx.path("c14-churn.ndjson")
@@ -327,7 +343,7 @@ def run(ctx):
             f.write(json.dumps({"K": "S", "V": v}) + "\n")
     ctrace = ctx.path("c14-churn.trace")
     rc = ctx.harness_json("signal", ["c14-churn", cp, ctrace], timeout=3000)
-    if rc["evaluations"] != len(csched):
+    if rc["evaluations"] != len(csched) and not rc.get("failures"):
         raise Infra("forced %d of %d churn schedules" % (rc["evaluations"], len(csched)))
     ctx.traces += rc["evaluations"]
     ctx.failures(rc["failures"])
@@ -358,7 +374,8 @@ def run(ctx):
     rb2 = ctx.harness_json("signal", ["c14-churn", bad], timeout=600)
     fc = rb2.get("fail_count") or {}
     nb2 = fc.get("churn/events/missing", 0) + fc.get("churn/events/outside-subscription", 0)
-    if len(pick) < 10 or nb2 != len(pick):
+    # (conclusive only on a tree that follows the schedules: a corrupted accounting may be masked by a real failure)
+    if (len(pick) < 10 or nb2 != len(pick)) and not ctx.violations:
         raise Infra("churn replay self-test: %d corrupted accountings, %d reported (%s)" % (len(pick), nb2, fc))
 
     # ---- 4. recorded histories, linearizability by TLC ---------------------------
@@ -366,13 +383,13 @@ def run(ctx):
     nh = 1500 if thorough else 120
     rr = ctx.harness_json("signal", ["c14-record", rec, str(nh)], timeout=3000)
     ctx.extra.update(rr.get("extra") or {})
-    nrec, rej = validate(ctx, rec, "recorded")
+    (nrec, rej), (ngat, rej2), (nchu, rej3) = par([lambda: validate(ctx, rec, "recorded"),
+                                                    lambda: validate(ctx, gtrace, "gated"),
+                                                    lambda: validate(ctx, ctrace, "churn")], 3)
     if nrec != nh:
         raise Infra("recorded %d histories, trace holds %d" % (nh, nrec))
     classify(ctx, "recorded", rej)
-    ngat, rej2 = validate(ctx, gtrace, "gated")
     classify(ctx, "gated", rej2)
-    nchu, rej3 = validate(ctx, ctrace, "churn")
     classify(ctx, "churn", rej3)
     ctx.traces += nrec + ngat + nchu
     ctx.extra["c14_histories_validated"] = nrec + ngat + nchu
@@ -390,6 +407,8 @@ def run(ctx):
     # self-test of the trace binding: corrupted histories must be rejected
     good = [h for k, h in enumerate(hs) if k not in {i for (i, _, _) in rej}][:100]
     caught = tried = 0
+    missed = []
+    jobs = []
     for mode in ("read", "drop-ev", "dup-ev", "flip-result", "dup-ev-churner", "ev-after-leave", "ev-foreign"):
         for h in good:
             idx = None
@@ -405,9 +424,14 @@ def run(ctx):
                 idx = [k for k, l in enumerate(h) if '"k":"ev"' in l]
             elif mode == "read":
                 idx = [k for k, l in enumerate(h) if '"k":"res"' in l and '"sig":"i"' in l]
-            elif mode in ("drop-ev", "dup-ev"):
+            elif mode == "drop-ev":
+                # (an event owed: s1 never leaves; an event of a subscriber that comes and goes may be optional)
+                idx = [k for k, l in enumerate(h) if '"k":"ev"' in l and '"s":"s1"' in l]
+            elif mode == "dup-ev":
                 idx = [k for k, l in enumerate(h) if '"k":"ev"' in l]
-            else:
+            elif '"k":"close"' not in "".join(h):
+                # (while a subscriber disconnects, an accepted write that reports an error is the
+                # known deviation the trace specification explains)
                 idx = [k for k, l in enumerate(h) if '"k":"res"' in l and '"sig":""' in l and k > 4]
             if not idx:
                 continue
@@ -425,17 +449,21 @@ def run(ctx):
                 x = json.loads(h2[k]); x["s"] = "f"; h2.insert(k, json.dumps(x, separators=(",", ":")))
             else:
                 x = json.loads(h2[k]); x["r"]["e"] = "" if x["r"]["e"] else "err"; h2[k] = json.dumps(x, separators=(",", ":"))
-            p = ctx.path("c14-selftest.ndjson")
+            p = ctx.path("c14-selftest-%s.ndjson" % mode)
             open(p, "w").write("\n".join(h2) + "\n")
-            r = ctx.tlc("TraceProperty", "TraceProperty.cfg", workers=1, dfs=True, env={"TRACE": p}, count=False,
-                        name="selftest:" + mode)
-            mark, nn = hwm(r)
-            tried += 1
-            if mark != nn + 1:
-                caught += 1
+            jobs.append((mode, p))
             break
-    if tried < 6 or caught != tried:
-        raise Infra("trace self-test: %d of %d corrupted histories rejected" % (caught, tried))
+    outs = par([(lambda m=m, p=p: ctx.tlc("TraceProperty", "TraceProperty.cfg", workers=1, dfs=True, env={"TRACE": p},
+                                          count=False, name="selftest:" + m)) for (m, p) in jobs], 4)
+    for (mode, _), r in zip(jobs, outs):
+        mark, nn = hwm(r)
+        tried += 1
+        if mark != nn + 1:
+            caught += 1
+        else:
+            missed.append(mode)
+    if (tried < 6 or caught != tried) and not ctx.violations:
+        raise Infra("trace self-test: %d of %d corrupted histories rejected (accepted: %s)" % (caught, tried, missed))
     ctx.extra["c14_selftest"] = {"replay_corruptions_reported": nb, "churn_corruptions_reported": nb2,
                                  "trace_corruptions_rejected": caught}
     ctx.extra["exhaustive"] = True
